@@ -110,3 +110,18 @@ Proof.
       destruct ((reln q g =? rSUB) || (reln q g =? rEQUAL)); inversion G; auto.
   - rewrite glue_name_occluded. apply (inv_is_glue c _ HI).
 Qed.
+
+Definition names_wf (h : list txn) : Prop :=
+  Forall (fun t => Forall (fun o => wf_labels (top_name o)) (t_ops t)) h.
+
+Theorem incremental_eq_spec_names : forall c h,
+    is_absolute (c_origin c) = true -> names_wf h ->
+    let z := exec c h in
+    (forall n nd, In (n, nd) (z_nodes z) -> nflags nd = flags_of c (z_nodes z) (n, nd)) /\
+    map ekey (map fst (z_delegs z)) = map ekey (delegations_of c (z_nodes z)) /\
+    increasing (map fst (z_nodes z)).
+Proof.
+  intros c h Ho Hw z. pose proof (wf_history_ok c h Ho Hw) as Hh.
+  destruct (incremental_eq_spec_main c h Hh) as [A B]. split; [exact A|]. split; [exact B|].
+  apply iteration_canonical_main; auto.
+Qed.
